@@ -714,6 +714,8 @@ func hasReplayRecv(c *Contract) bool {
 }
 
 // run an in-package test injected through an overlay; returns combined output and the JSON object printed after marker
+var overlayTestTimeout = 60 // seconds
+
 var replayOverlay map[string][]byte // extra overlay (selftest mutants): the replay then runs the mutated code
 
 func runOverlayTest(pkgDir, fileName, src, testName, marker string) (string, map[string]interface{}) {
@@ -735,7 +737,7 @@ func runOverlayTest(pkgDir, fileName, src, testName, marker string) (string, map
 	ob, _ := json.Marshal(ov)
 	of := filepath.Join(tmp, "overlay.json")
 	os.WriteFile(of, ob, 0644)
-	cmd := exec.Command("sh", "-c", fmt.Sprintf("ulimit -v 8000000; exec go test -tags verif -overlay %s -vet=off -count=1 -v -timeout 60s -run '^%s$' .", of, testName))
+	cmd := exec.Command("sh", "-c", fmt.Sprintf("ulimit -v 8000000; exec go test -tags verif -overlay %s -vet=off -count=1 -v -timeout %ds -run '^%s$' .", of, overlayTestTimeout, testName))
 	cmd.Dir = pkgDir
 	cmd.Env = append(goEnv(), "CGO_LDFLAGS=-Wl,--unresolved-symbols=ignore-all", "CGO_LDFLAGS_ALLOW=.*")
 	out, _ := cmd.CombinedOutput()
